@@ -292,7 +292,7 @@ func (E *Engine) wfScalar(T types.Type, c string) []string {
 		return []string{sx(">=", c, "0")}
 	}
 	if b, ok := types.Unalias(T).Underlying().(*types.Basic); ok && b.Info()&types.IsString != 0 {
-		return []string{sx("<=", "0", sx("slen", c)), sx("<=", sx("slen", c), maxLen)}
+		return []string{sx("<=", "0", sx(fSlen, c)), sx("<=", sx(fSlen, c), maxLen)}
 	}
 	return nil
 }
